@@ -333,7 +333,16 @@ func rulesC01(e *Engine, r *Report) {
 					arg := e.Canon(s.Instr.Common().Args[1])
 					setV := false
 					for _, v := range vs {
-						if v.Fn == cf && e.Canon(v.Instr.Common().Args[1]) == arg {
+						val := e.Canon(v.Instr.Common().Args[1])
+						if v.Fn != cf {
+							continue
+						}
+						if val == arg {
+							setV = true
+						}
+						// ... or an element of a local list to which nothing but that value is appended
+						// (all parked files are entered first, then handed over)
+						if strings.HasPrefix(arg, "phi(builtin(append)(phi#, ["+val+"])|make(") && strings.Count(arg, "builtin(append)") == 1 {
 							setV = true
 						}
 					}
